@@ -1,7 +1,7 @@
 (* C07: the sweep as it is coded (index model: loop_up / loop_dn with _pocket_exit_index, insert_temperature_interval,
-   index shifts) computes, on every Robust side, the same table as the zipper form -- literally above the pinch, and up to
-   == on H_net_np below it (there the code leaves the row on which a pocket closes exactly untouched, the zipper form
-   writes the equal pocket level into it). *)
+   index shifts) computes, on every Robust side, the same table as the zipper form (stated up to == on H_net_np below
+   the pinch; since the repair of D56 -- the exit row is flattened also when no breakpoint is inserted -- every
+   branch is in fact literally equal). *)
 From OP Require Import gen.Consts model.Base model.Pockets proofs.BaseFacts proofs.PocketsPL proofs.PocketsZ proofs.PocketsFuel.
 From Coq Require Import Lia Lqa.
 Local Open Scope Q_scope.
@@ -154,7 +154,8 @@ Lemma loop_dn_S tq f t i hp cp p :
     let '(t1, n) := if (e =? p)%nat then (t, O)
                     else insert_T tq t (lin_interp (Hat t i) (Hat t e) (Hat t (e - 1)) (Tat t e) (Tat t (e - 1))) in
     let i0' := if (0 <? n)%nat then (i + n)%nat else i in
-    let t2 := set_np t1 (S e) i0' (Hat t1 i0') in
+    let a := if (0 <? n)%nat || (e =? p)%nat then S e else e in
+    let t2 := set_np t1 a i0' (Hat t1 i0') in
     loop_dn tq f t2 (e - n)%nat hp cp p
   else loop_dn tq f t (i - 1)%nat hp cp p.
 Proof. reflexivity. Qed.
@@ -516,41 +517,42 @@ Proof.
         assert (E2 : qltb (rH pv) (rH r' - tq) = false) by (apply qltb_false; lra).
         destruct (bp_ins_cases false tq (mk_dn tq) Ht (mk_dn_spec tq ltac:(lra)) (rH cur) pv r' K5 Hpv G Epv Er' Hcross)
           as [[Ei EL]|[bp [Ei [B3 [B4 [G1 [G2 B5]]]]]]]; rewrite Ei.
-        -- (* no breakpoint: the pocket closes exactly on the row pv, which the code leaves untouched *)
+        -- (* no breakpoint: the pocket closes exactly on the row pv; the code flattens pv too (repair of D56) *)
            unfold bp_ins in Ei. fold t0 in Ei.
            destruct (qltb tq (Qabs (rT pv - t0)) && qltb tq (Qabs (rT r' - t0))) eqn:Echk; [discriminate|].
-           cbn [Nat.ltb Nat.leb]. rewrite Hi. rewrite Nat.sub_0_r.
-           assert (Es : set_np t (S e) i (rH cur) = (a ++ [r'; pv]) ++ flat (rH cur) (rev m1') ++ cur :: post).
-           { rewrite Et. replace (a ++ r' :: pv :: b) with ((a ++ [r'; pv]) ++ rev m1' ++ cur :: post) by (unfold b; list_eq).
+           cbn [Nat.ltb Nat.leb orb]. rewrite Hi. rewrite Nat.sub_0_r.
+           assert (Es : set_np t e i (rH cur) = (a ++ [r']) ++ flat (rH cur) (pv :: rev m1') ++ cur :: post).
+           { rewrite Et. replace (a ++ r' :: pv :: b) with ((a ++ [r']) ++ (pv :: rev m1') ++ cur :: post) by (unfold b; list_eq).
              apply set_np_block.
-             - rewrite app_length. simpl. lia.
-             - rewrite app_length, rev_length. simpl. unfold i. rewrite Hlen. unfold e in Ha. lia. }
+             - rewrite app_length. simpl. unfold e in *. lia.
+             - rewrite app_length. simpl. rewrite rev_length. unfold i. rewrite Hlen. unfold e in Ha. lia. }
            rewrite Es.
-           assert (Prepv : SidePre false tq Ls pv (r' :: rs')).
-           { apply (SidePre_suffix false tq Ls cur (r :: rs) m1' pv (r' :: rs') Pre). rewrite K2. list_eq. }
-           assert (Hplpv : PinchLow tq pv (r' :: rs')).
-           { apply (PinchLow_suffix tq cur (r :: rs) m1' pv (r' :: rs') Hpl). rewrite K2. list_eq. }
-           destruct (IH (r' :: rs') ltac:(simpl in Hlen |- *; lia) f pre pv (flat (rH cur) (rev m1') ++ cur :: post) hp cp
-                       ltac:(simpl in Hlen |- *; lia) Prepv Hplpv) as [t' [Ek [Lk Tk]]].
-           { replace (pre ++ rev (r' :: rs') ++ pv :: flat (rH cur) (rev m1') ++ cur :: post)
-               with ((a ++ [r'; pv]) ++ flat (rH cur) (rev m1') ++ cur :: post) by (unfold a; cbn [rev]; list_eq).
-             apply Tdesc_flat. replace ((a ++ [r'; pv]) ++ rev m1' ++ cur :: post) with (a ++ r' :: pv :: b) by (unfold b; list_eq).
+           (* one more iteration at the (flattened) row pv: no pocket opens there *)
+           destruct f as [|f']; [simpl in Hlen; lia|]. rewrite loop_dn_S.
+           assert (E1 : (e <=? p)%nat = false) by (apply Nat.leb_gt; unfold e; lia). rewrite E1.
+           replace ((a ++ [r']) ++ flat (rH cur) (pv :: rev m1') ++ cur :: post)
+             with ((a ++ [r']) ++ with_np pv (rH cur) :: flat (rH cur) (rev m1') ++ cur :: post) by reflexivity.
+           rewrite (Hat_mid' (a ++ [r']) (with_np pv (rH cur)) _ e) by (rewrite app_length; simpl; unfold e in *; lia).
+           replace ((a ++ [r']) ++ with_np pv (rH cur) :: flat (rH cur) (rev m1') ++ cur :: post)
+             with (a ++ r' :: with_np pv (rH cur) :: flat (rH cur) (rev m1') ++ cur :: post) by list_eq.
+           rewrite (Hat_mid' a r' _ (e - 1)%nat) by lia.
+           cbn [rH with_np]. rewrite E2.
+           assert (Hplr : PinchLow tq r' rs') by (apply (PinchLow_suffix tq cur (r :: rs) (m1' ++ [pv]) r' rs' Hpl); exact K2).
+           destruct (IH rs' ltac:(simpl in Hlen; lia) f' pre r' (with_np pv (rH cur) :: flat (rH cur) (rev m1') ++ cur :: post) hp cp
+                       ltac:(simpl in Hlen; lia) Pre' Hplr) as [t' [Ek [Lk Tk]]].
+           { replace (pre ++ rev rs' ++ r' :: with_np pv (rH cur) :: flat (rH cur) (rev m1') ++ cur :: post)
+               with ((a ++ [r']) ++ flat (rH cur) (pv :: rev m1') ++ cur :: post) by (unfold a; list_eq).
+             apply Tdesc_flat. replace ((a ++ [r']) ++ (pv :: rev m1') ++ cur :: post) with (a ++ r' :: pv :: b) by (unfold b; list_eq).
              exact Htd'. }
-           replace ((a ++ [r'; pv]) ++ flat (rH cur) (rev m1') ++ cur :: post)
-             with (pre ++ rev (r' :: rs') ++ pv :: flat (rH cur) (rev m1') ++ cur :: post) by (unfold a; cbn [rev]; list_eq).
-           replace e with (List.length pre + List.length (r' :: rs'))%nat by (unfold e, p; simpl; lia).
+           replace (a ++ r' :: with_np pv (rH cur) :: flat (rH cur) (rev m1') ++ cur :: post)
+             with (pre ++ rev rs' ++ r' :: with_np pv (rH cur) :: flat (rH cur) (rev m1') ++ cur :: post) by (unfold a; list_eq).
+           replace (e - 1)%nat with (List.length pre + List.length rs')%nat by (unfold e, p; lia).
            unfold p. rewrite Ek. exists t'. split; [reflexivity|]. split; [|exact Tk].
-           eapply rows_eqv_trans; [exact Lk|].
-           change (List.length (r' :: rs')) with (S (List.length rs')). rewrite zsweep_S. cbn [rH]. rewrite E2.
            rewrite (zsweep_fuel tq (mk_dn tq) (List.length rs) (List.length rs') r' rs') by (simpl in Hlen; lia).
-           set (zs := zsweep tq (mk_dn tq) (List.length rs') r' rs').
-           replace (pre ++ rev (r' :: zs) ++ pv :: flat (rH cur) (rev m1') ++ cur :: post)
-             with ((pre ++ rev zs ++ [r']) ++ [pv] ++ flat (rH cur) (rev m1') ++ cur :: post) by (cbn [rev]; list_eq).
+           set (zs := zsweep tq (mk_dn tq) (List.length rs') r' rs') in *.
            replace (pre ++ rev ((flat (rH cur) (m1' ++ [pv]) ++ []) ++ r' :: zs) ++ cur :: post)
-             with ((pre ++ rev zs ++ [r']) ++ [with_np pv (rH cur)] ++ flat (rH cur) (rev m1') ++ cur :: post).
-           2:{ rewrite app_nil_r. unfold flat. rewrite rev_app_distr. rewrite <- map_rev. rewrite rev_app_distr. cbn [rev app map]. list_eq. }
-           apply rows_eqv_app; [apply rows_eqv_refl|]. apply rows_eqv_app; [|apply rows_eqv_refl].
-           constructor; [|constructor]. repeat split. cbn [rNP with_np]. rewrite Epv. symmetry. exact EL.
+             with (pre ++ rev zs ++ r' :: with_np pv (rH cur) :: flat (rH cur) (rev m1') ++ cur :: post); [exact Lk|].
+           rewrite app_nil_r. unfold flat. rewrite rev_app_distr. rewrite <- map_rev. rewrite rev_app_distr. cbn [rev app map]. list_eq.
         -- (* a breakpoint row bp is inserted between r' and pv *)
            unfold bp_ins in Ei. fold t0 in Ei.
            destruct (qltb tq (Qabs (rT pv - t0)) && qltb tq (Qabs (rT r' - t0))) eqn:Echk; [|discriminate].
@@ -561,7 +563,7 @@ Proof.
            { rewrite Et. rewrite ins_sorted_between; [unfold mk_dn in Ebp; rewrite Ebp; reflexivity| |lra].
              pose proof (Tdesc_above tq a r' (pv :: b) ltac:(lra) Htd') as Hab2.
              eapply Forall_impl; [|exact Hab2]. intros x Hx. cbv beta in Hx. lra. }
-           rewrite Eins. cbn [Nat.ltb Nat.leb].
+           rewrite Eins. cbn [Nat.ltb Nat.leb orb].
            assert (Hi' : Hat (a ++ r' :: bp :: pv :: b) (i + 1) = rH cur).
            { replace (a ++ r' :: bp :: pv :: b) with ((a ++ r' :: bp :: pv :: rev m1') ++ cur :: post) by (unfold b; list_eq).
              apply Hat_mid'. rewrite app_length. simpl. rewrite rev_length. unfold i. rewrite Hlen. unfold e in Ha. lia. }
